@@ -54,7 +54,7 @@ ASSUMPTIONS = [
     'dialect-library parse memoised per process (filled by the real parser)',
 ]
 AGG_N = ('Sum', 'Min', 'Max', 'Count', '+', 'List', 'Set', 'ArgMin', 'ArgMax')
-OPTS = dict(p_colnames=0.0, p_composite_col=0.3, p_unnest_chain=0.15,
+OPTS = dict(p_colnames=0.0, p_composite_col=0.3, p_uminus=0.12, p_unnest_chain=0.15,
             p_neg=0.2, p_agg=0.25, p_distinct=0.35, p_sibling_reuse=0.3, p_sibling_reuse_neg=0.3,
             p_feed_sibling=0.2, nest_depth=1, agg_ops=AGG_N, pred_agg_ops_n=AGG_N,
             pred_agg_ops_s=('Min', 'Max', 'List', 'Set', 'Count', 'ArgMin', 'ArgMax'),
